@@ -32,6 +32,15 @@ pub struct Outage {
     pub to_ms: u64,
     pub kinds: u16,
 }
+/// Late duplicates: every `every`-th packet SENT on the link within [from_ms, to_ms) is delivered normally and once more
+/// `delay_ms` later (a straggling copy, far beyond the ordinary jitter). Deterministic, consumes no random draws.
+#[derive(Clone, Debug, Serialize, Deserialize, PartialEq)]
+pub struct Straggler {
+    pub from_ms: u64,
+    pub to_ms: u64,
+    pub every: u64,
+    pub delay_ms: u64,
+}
 #[derive(Clone, Debug, Default, Serialize, Deserialize, PartialEq)]
 pub struct Link {
     pub drop: f64,
@@ -40,13 +49,15 @@ pub struct Link {
     pub jitter_ms: u64,
     pub outages: Vec<Outage>,
     pub faults: Vec<ScriptFault>,
+    #[serde(default)]
+    pub stragglers: Vec<Straggler>,
 }
 impl Link {
     pub fn clean(base_ms: u64) -> Link {
         Link { base_ms, ..Default::default() }
     }
     pub fn is_faulty(&self) -> bool {
-        self.drop > 0.0 || self.dup > 0.0 || self.jitter_ms > 0 || !self.outages.is_empty() || !self.faults.is_empty()
+        self.drop > 0.0 || self.dup > 0.0 || self.jitter_ms > 0 || !self.outages.is_empty() || !self.faults.is_empty() || !self.stragglers.is_empty()
     }
 }
 
@@ -88,6 +99,7 @@ pub struct NetStats {
     /// virtual time (ns) at which the last injected fault (scripted fault or outage drop) took effect
     pub last_fault_t: u64,
     pub faults_applied_by_kind: [u64; 8],
+    pub stragglers: u64,
 }
 
 #[derive(Clone, Debug)]
@@ -270,6 +282,13 @@ impl Net {
         if d_dup || script == Some(Fault::Dup) {
             self.stats.duplicated += 1;
             q.push(Pkt { at: now + base + j2, seq: lseq * 2 + 1, from: me, to, msg: msg.clone(), forged: false });
+        }
+        if !d_dup {
+            if let Some(sg) = ls.link.stragglers.iter().find(|g| rel_ms >= g.from_ms && rel_ms < g.to_ms && lseq % g.every.max(1) == 0) {
+                self.stats.stragglers += 1;
+                let at = now + base + sg.delay_ms * MS;
+                self.inflight.entry(to).or_default().push(Pkt { at, seq: lseq * 2 + 1, from: me, to, msg: msg.clone(), forged: false });
+            }
         }
         self.log(now, me, to, "send", &w);
     }
